@@ -932,7 +932,30 @@ func suiteOps(rn *runner, r *rng, tier string) {
 		cfg.maxMembers = 2 + cr.intn(8)
 		nd := cr.chance(1, 4)
 		var text string
-		if nd {
+		lookalikes := i%8 == 3
+		if lookalikes {
+			// a flat container of numbers half of which read as tape tag words (NOP with a small skip, container start …)
+			// when taken for one: what deletions and gap skipping do right next to such a value word
+			nd = false
+			k := 3 + cr.intn(6)
+			var parts []string
+			for j := 0; j < k; j++ {
+				v := strconv.Itoa(cr.intn(100))
+				if cr.chance(1, 2) {
+					v = cr.tagLookalike()
+				}
+				if i%16 == 3 {
+					parts = append(parts, v)
+				} else {
+					parts = append(parts, fmt.Sprintf("%q:%s", string(rune('a'+j)), v))
+				}
+			}
+			if i%16 == 3 {
+				text = "[" + strings.Join(parts, ",") + "]"
+			} else {
+				text = "{" + strings.Join(parts, ",") + "}"
+			}
+		} else if nd {
 			text, _ = cr.ndjson(cfg, 1+cr.intn(4), false)
 		} else {
 			text = cr.doc(cfg)
@@ -960,6 +983,9 @@ func suiteOps(rn *runner, r *rng, tier string) {
 			continue
 		}
 		nEdits := cr.intn(6)
+		if lookalikes {
+			nEdits = 3 + cr.intn(4)
+		}
 		kinds := map[string]bool{}
 		for e := 0; e < nEdits; e++ {
 			before := len(c.tc.ops)
